@@ -355,7 +355,7 @@ private:
     if (record_timestamp_ns >= _next_rotation_time)
     {
       _rotate_files(record_timestamp_ns);
-      _next_rotation_time = _calculate_rotation_tp(record_timestamp_ns, _config);
+      _next_rotation_time = _calculate_rotation_tp(_next_rotation_time, record_timestamp_ns, _config);
       return true;
     }
 
@@ -726,6 +726,8 @@ private:
       date.tm_hour = static_cast<decltype(date.tm_hour)>(config.daily_rotation_time().first.count());
       date.tm_min = static_cast<decltype(date.tm_min)>(config.daily_rotation_time().second.count());
       date.tm_sec = 0;
+      // daylight saving time can be different at that time of day
+      date.tm_isdst = -1;
     }
     else
     {
@@ -733,37 +735,58 @@ private:
     }
 
     // convert back to timestamp
-    time_t const rotation_time =
+    time_t rotation_time =
       (config.timezone() == Timezone::GmtTime) ? detail::timegm(&date) : std::mktime(&date);
 
-    uint64_t const rotation_time_seconds = (rotation_time > time_now)
-      ? static_cast<uint64_t>(rotation_time)
-      : static_cast<uint64_t>(rotation_time + std::chrono::seconds{std::chrono::hours{24}}.count());
+    while (rotation_time <= time_now)
+    {
+      // that time of day has already passed, use the same time of day on the next day. This is not
+      // always 24 hours later, a day on which the clocks change is shorter or longer
+      date.tm_mday += 1;
+      date.tm_isdst = -1;
+
+      if (config.rotation_frequency() == RotatingFileSinkConfig::RotationFrequency::Daily)
+      {
+        date.tm_hour = static_cast<decltype(date.tm_hour)>(config.daily_rotation_time().first.count());
+        date.tm_min = static_cast<decltype(date.tm_min)>(config.daily_rotation_time().second.count());
+        date.tm_sec = 0;
+      }
+
+      rotation_time =
+        (config.timezone() == Timezone::GmtTime) ? detail::timegm(&date) : std::mktime(&date);
+    }
 
     return static_cast<uint64_t>(
-      std::chrono::nanoseconds{std::chrono::seconds{rotation_time_seconds}}.count());
+      std::chrono::nanoseconds{std::chrono::seconds{static_cast<uint64_t>(rotation_time)}}.count());
   }
 
   /***/
-  static uint64_t _calculate_rotation_tp(uint64_t rotation_timestamp_ns, RotatingFileSinkConfig const& config)
+  static uint64_t _calculate_rotation_tp(uint64_t scheduled_rotation_tp_ns, uint64_t record_timestamp_ns,
+                                         RotatingFileSinkConfig const& config)
   {
+    // The record that triggers a rotation can be late by any amount of time. The next rotation
+    // time point is the next point of the schedule after that record, not a full interval after it
+    auto const next_on_schedule = [scheduled_rotation_tp_ns, record_timestamp_ns](std::chrono::nanoseconds interval)
+    {
+      auto const interval_ns = static_cast<uint64_t>(interval.count());
+      uint64_t const elapsed_intervals = (record_timestamp_ns - scheduled_rotation_tp_ns) / interval_ns;
+      return scheduled_rotation_tp_ns + ((elapsed_intervals + 1) * interval_ns);
+    };
+
     if (config.rotation_frequency() == RotatingFileSinkConfig::RotationFrequency::Minutely)
     {
-      return rotation_timestamp_ns +
-        static_cast<uint64_t>(
-               std::chrono::nanoseconds{std::chrono::minutes{config.rotation_interval()}}.count());
+      return next_on_schedule(std::chrono::minutes{config.rotation_interval()});
     }
 
     if (config.rotation_frequency() == RotatingFileSinkConfig::RotationFrequency::Hourly)
     {
-      return rotation_timestamp_ns +
-        static_cast<uint64_t>(
-               std::chrono::nanoseconds{std::chrono::hours{config.rotation_interval()}}.count());
+      return next_on_schedule(std::chrono::hours{config.rotation_interval()});
     }
 
     if (config.rotation_frequency() == RotatingFileSinkConfig::RotationFrequency::Daily)
     {
-      return rotation_timestamp_ns + std::chrono::nanoseconds{std::chrono::hours{24}}.count();
+      // the configured time of day, on the day of the record or on the next one
+      return _calculate_initial_rotation_tp(record_timestamp_ns, config);
     }
 
     QUILL_THROW(QuillError{"Invalid rotation frequency"});
